@@ -49,7 +49,7 @@ func init() {
 var c16Cmds = []string{"view", "view-raw", "diff", "copy", "sum", "sum-copy", "sum-diff", "generate"}
 var c16Windows = []string{"default", "past", "future", "beyond-archive0", "beyond-all", "degenerate", "inverted"}
 var c16TextOuts = []string{"none", "stdout", "file", "missing-dir", "directory", "dev-full"}
-var c16Envs = []string{"ok", "src-missing", "src-truncated", "src-other-layout", "src-other-layout-points", "dest-other-layout-points", "dest-unwritable", "generate-dest-exists"}
+var c16Envs = []string{"ok", "src-missing", "src-truncated", "src-other-layout", "src-other-layout-points", "sources-differ-in-points", "src-corrupt-last-archive", "dest-other-layout-points", "dest-unwritable", "generate-dest-exists"}
 
 type c16World struct {
 	root       string
@@ -151,6 +151,20 @@ func c16Eval(c *fw.Ctx, k c16Case) (sig, desc string, nontrivial bool, outcome s
 		for _, f := range srcFiles {
 			otherFile.Write(f)
 		}
+	case "sources-differ-in-points":
+		// only ONE of the two files of the item has one more point in its last archive
+		oa := append([]wsp.Arch{}, l.Archs...)
+		oa[len(oa)-1].N++
+		(&BFile{L: wsp.Layout{Archs: oa, Method: 2}, Rings: EmptyRings(wsp.Layout{Archs: oa})}).Write(srcFiles[2])
+	case "src-corrupt-last-archive":
+		// the last archive info of every source carries an offset that points into the previous archive's region
+		for _, f := range srcFiles {
+			b, _ := os.ReadFile(f)
+			o := 16 + 12*(len(l.Archs)-1)
+			b[o+3] -= 12
+			os.WriteFile(f, b, 0644)
+		}
+		srcBroken = true
 	case "dest-other-layout-points":
 		// the EXISTING destination differs from the source (and from the -retentions option) only in the last archive's point count
 		oa := append([]wsp.Arch{}, l.Archs...)
@@ -251,7 +265,12 @@ func c16Eval(c *fw.Ctx, k c16Case) (sig, desc string, nontrivial bool, outcome s
 		fault = "text-out-cannot-be-written"
 	case usesSrc && srcBroken:
 		fault = "input-" + strings.TrimPrefix(k.Env, "src-")
+		if k.Env == "src-corrupt-last-archive" {
+			fault = "input-corrupt"
+		}
 	case (k.Env == "src-other-layout" || k.Env == "src-other-layout-points") && (k.Cmd == "diff" || k.Cmd == "copy" || k.Cmd == "sum-copy" || k.Cmd == "sum-diff"):
+		fault = "layout-mismatch"
+	case k.Env == "sources-differ-in-points" && (k.Cmd == "sum" || k.Cmd == "sum-copy" || k.Cmd == "sum-diff"):
 		fault = "layout-mismatch"
 	case k.Env == "dest-other-layout-points" && (k.Cmd == "diff" || k.Cmd == "copy" || k.Cmd == "sum-copy" || k.Cmd == "sum-diff"):
 		fault = "layout-mismatch"
